@@ -75,9 +75,6 @@ func c15Case(scopes map[string]string) *Case {
 	}
 	cs := &Case{Name: fmt.Sprintf("c15/%v", scopes), Prog: prog, Variants: optVariants, NonTrivial: true, Shape: c15Shape{Scopes: scopes}}
 	cs.Oracle = func(x *OracleCtx) *Violation {
-		inlineName := cat(msname.Val, "_", typeInline.Val)
-		tableName := cat(msname.Val, "_", typeTable.Val)
-		rowName := cat(msname.Val, "_", typeTable.Val, "_1")
 		exp := []expLabel{
 			{"script", sname.Val, isGlobal("script", "global")},
 			{"text", tname.Val, isGlobal("text", "global")},
@@ -93,18 +90,18 @@ func c15Case(scopes map[string]string) *Case {
 			{"label D (local after a global one)", lblD.Val, false},
 			{"label E (global)", lblE.Val, true},
 			{"label F (unmarked directly after a global one)", lblF.Val, false},
-			{"hoisted text", cat(sname.Val, "_Text_0"), false},
-			{"hoisted movement", cat(sname.Val, "_Movement_0"), false},
-			{"inline map script", inlineName, false},
-			{"map script table", tableName, false},
-			{"inline table-row script", rowName, false},
 		}
+		// Everything else the output defines is a label the compiler invented
+		// (sub-labels, hoisted text and movement, inline map scripts, tables):
+		// whatever it is called, it must be local. At least 5 such labels must
+		// exist (text, movement, inline script, table, row script).
 		for _, v := range x.Case.Variants {
 			res := x.Res[v.Name]
 			if res.Err.Panic != "" || res.Err.IsErr {
 				return &Violation{Sub: "accept", Msg: "the program was rejected: " + interp.ToString(res.Err.Msg) + res.Err.Panic}
 			}
 			seen := make([]int, len(exp))
+			generated := 0
 			for _, al := range ParseAsm(res.Out) {
 				if al.Kind != "label" {
 					continue
@@ -120,15 +117,14 @@ func c15Case(scopes map[string]string) *Case {
 					}
 				}
 				if !matched {
-					// must be a generated sub-label of one of the scripts: local
-					sub := isSubLabelOf(al.Name, sname.Val) || isSubLabelOf(al.Name, inlineName) || isSubLabelOf(al.Name, rowName)
-					if !sub {
-						return &Violation{Sub: "scope", Msg: fmt.Sprintf("variant %s: unexpected label %s", v.Name, interp.ToString(al.Name))}
-					}
+					generated++
 					if al.Global {
-						return &Violation{Sub: "scope", Msg: fmt.Sprintf("variant %s: generated sub-label %s is exported", v.Name, interp.ToString(al.Name))}
+						return &Violation{Sub: "scope", Msg: fmt.Sprintf("variant %s: generated label %s is exported", v.Name, interp.ToString(al.Name))}
 					}
 				}
+			}
+			if generated < 5 {
+				return &Violation{Sub: "scope", Msg: fmt.Sprintf("variant %s: only %d generated labels are defined; the hoisted text, the hoisted movement, the inline map script, the table and the row script need one each", v.Name, generated)}
 			}
 			for i, e := range exp {
 				if seen[i] != 1 {
